@@ -697,6 +697,29 @@ func (c *Ctx) callBuiltin(b *ssa.Builtin, args []Value, call *ssa.CallCommon) Va
 			c.mapDelete(m, args[1])
 		}
 		return nil
+	case "clear":
+		switch x := args[0].(type) {
+		case SliceVal:
+			if x.Len > 0 {
+				var et types.Type
+				if call != nil {
+					et = call.Args[0].Type().Underlying().(*types.Slice).Elem()
+				}
+				for i := 0; i < x.Len; i++ {
+					if et != nil {
+						x.elemPtr(i).store(c.zero(et))
+					} else {
+						x.elemPtr(i).store(zeroLike(x.get(i)))
+					}
+				}
+			}
+			return nil
+		case *MapVal:
+			if x != nil {
+				x.Keys, x.Vals = nil, nil
+			}
+			return nil
+		}
 	case "close":
 		ch := args[0].(*ChanVal)
 		if ch == nil {
